@@ -13,6 +13,7 @@ R27.4 single-line collapse: where normalize_to_single_line's result becomes the 
       `!text.contains("//")` and `!text.contains("/*")` on that text (collapsing newlines behind a line comment swallows
       the rest of the right-hand side).
 R27.5 a comment text taken off the pending queue is written on every path (only its own emptiness may suppress it).
+R27.6 the characters Line::ends_with_nl accepts as line end are all removed by the line-end normalisations.
 Idempotence, layout and comment order are NOT decided.
 """
 import re
@@ -178,6 +179,7 @@ def check(ctx):
                       % (short(b.path), sorted(seen_pats)), where(b, c.line))
     ctx.require_floor("R27.4", "collapse_sites", n_norm, 1)
     taken_comments_reach_output(ctx, facts, [b for b in facts.in_crate(LS) if (b.module or "").startswith("parol_ls::formatting")])
+    line_terminator_sets_agree(ctx, facts)
 
 
 # ------------------------------------------------------------------------------------------------------------------ R27.5
@@ -255,3 +257,63 @@ def taken_comments_reach_output(ctx, facts, bodies):
                 "`A: ( \"a\" /* c */ | \"b\" );` is formatted as `A: ( \"a\" | \"b\" )`"
                 % (nm, sorted({b.line_of_block(u) for u in use_blocks})), where(b, c.line))
     ctx.require_floor("R27.5", "comment_take_sites", n, 25)
+
+
+# ------------------------------------------------------------------------------------------------------------------ R27.6
+def _char_pattern(facts, body, call, argi=1):
+    """set of characters of a str pattern argument: a char constant, an array of chars, or a closure |c| c == 'x' || c == 'y'"""
+    from ..dataflow import single_def, raw_operand_place
+    from .common import closure_of_arg_any
+    if len(call.args) <= argi:
+        return None
+    a = call.args[argi]
+    if a[0] == "k" and a[1] == "char":
+        return {a[2]}
+    rp = raw_operand_place(body, a)
+    d = single_def(body, rp[0]) if rp else None
+    if d and d[0] == "assign" and d[3][0] == "agg" and d[3][1] == "array":
+        vals = {o[2] for o in d[3][4] if o[0] == "k" and o[1] == "char"}
+        return vals if len(vals) == len(d[3][4]) or vals else None
+    if d and d[0] == "assign" and d[3][0] == "use" and d[3][1][0] == "k" and d[3][1][1] == "char":
+        return {d[3][1][2]}
+    cl = closure_of_arg_any(facts, body, call)
+    if cl is not None:
+        vals = set()
+        for bi, si, p, rv, line, mac in cl.assigns():
+            if rv[0] == "bin" and rv[1] == "Eq":
+                for o in (rv[2], rv[3]):
+                    if o[0] == "k" and o[1] == "char":
+                        vals.add(o[2])
+        return vals or None
+    return None
+
+
+def line_terminator_sets_agree(ctx, facts):
+    """R27.6 (added after seed C27-c) one notion of 'line terminator' in the formatter: every character that Line::ends_with_nl
+    accepts as the end of a line is removed by the line-end normalisations of FmtOptions::apply_formatting (trim_end_matches /
+    trim_matches patterns).  The delimiter logic asks ends_with_nl whether a line break must still be added; a normalisation that
+    leaves a character the predicate accepts (a lone '\\r' from a CRLF text) suppresses that line break, and the next declaration is
+    glued to a line comment."""
+    L = "parol_ls::formatting::line::Line::ends_with_nl"
+    A = "parol_ls::formatting::fmt_options::FmtOptions::apply_formatting"
+    lb, ab = facts.body(L), facts.body(A)
+    pred = None
+    for c in lb.calls():
+        if (c.path or "").split("::")[-1] in ("ends_with", "contains"):
+            pred = _char_pattern(facts, lb, c)
+    if not pred:
+        raise AnchorMissing("Line::ends_with_nl: no character pattern found")
+    n = 0
+    for c in ab.calls():
+        nm = (c.path or "").split("::")[-1]
+        if nm in ("trim_end_matches", "trim_matches", "trim_start_matches") and (c.self_ty or "") == "str":
+            pat = _char_pattern(facts, ab, c)
+            n += 1
+            name = lambda s: sorted(repr(chr(x)) for x in s)
+            ctx.check(pat is not None and pred <= pat, "R27.6", "apply_formatting|%s@%d|removes-all-terminators" % (nm, n),
+                      "%s removes %s, ends_with_nl accepts %s" % (nm, name(pat or set()), name(pred)),
+                      "FmtOptions::apply_formatting normalises a line end with %s(%s) but Line::ends_with_nl also accepts %s: a "
+                      "character that is left (e.g. the '\\r' of a CRLF text behind a line comment) counts as 'line already ended', the "
+                      "line break before the next declaration is not written and the declaration is swallowed by the comment"
+                      % (nm, name(pat) if pat else "an unrecognised pattern", name(pred - (pat or set()))), where(ab, c.line))
+    ctx.require_floor("R27.6", "line_end_normalisations", n, 2)
